@@ -24,7 +24,10 @@ def val_of_dim(d):
         v.dim = d
         return v
     # composite
-    v = VNum("int", T.sym("dim" + repr(d)), pos=True)
+    from .values import dim_size
+
+    sz = dim_size(d)
+    v = VNum("int", sz if sz is not None else T.sym("dim" + repr(d)), pos=True)
     v.dim = d
     return v
 
@@ -43,7 +46,7 @@ def dim_of(v):
             at = v.term.single_atom()
             if isinstance(at, T.Sym):
                 return at.name
-            return "expr:" + repr(v.term)
+            return ("poly", v.term)
     return UNK
 
 
@@ -163,7 +166,7 @@ def binop(it, op, a, b, node):
         # keep dimension products usable as shapes
         if op == "Mult" and kind == "int":
             da, db = dim_of(a), dim_of(b)
-            if da != UNK and db != UNK and not (isinstance(da, str) and da.startswith("expr:")) and not (isinstance(db, str) and db.startswith("expr:")):
+            if da != UNK and db != UNK and not (isinstance(da, tuple) and da[0] == "poly") and not (isinstance(db, tuple) and db[0] == "poly"):
                 r.dim = dim_mul([da, db])
         return r
     if isinstance(a, VList) and isinstance(b, VList) and op == "Add":
@@ -488,6 +491,10 @@ def subscript(it, base, idx, node, for_store=False):
         return VUnknown("objitem", "unknown")
     if isinstance(base, VBound):
         return VUnknown("bounditem", "unknown")
+    if isinstance(base, VExt):
+        u = VUnknown(base.name + "[..]", "str" if base.name.endswith("__version__") else "unknown")
+        u.not_none = True
+        return u
     raise Unsupported("subscript of %r" % (base,), node, it.site(node))
 
 
